@@ -272,6 +272,7 @@ func main() {
 	genGas(fc)
 	genWiring(fc)
 	genShield(fc)
+	genMint(fc)
 	genDeterminism(*repo)
 	var names []string
 	for k := range fc.files {
